@@ -168,7 +168,7 @@ Exec(r, out) ==
 Staged(b, i) == LET pick(j) == IF QueryTouches /\ j = i THEN b[j].s ELSE b[j].c
                 IN SelectSeq([j \in 1..Len(b) |-> pick(j)], LAMBDA c : c # NoCh)
 ExecQ(r, i, out) ==
-  /\ ~TallyOnly /\ rep[r].h < Len(chain) /\ rep[r].h > 0
+  /\ ~TallyOnly /\ rep[r].h < Len(chain)
   /\ i \in 1..Len(chain[rep[r].h + 1].blk)
   /\ LET k   == rep[r].h + 1
          res == ApplyP(rep[r].vals, rep[r].extra \o Staged(chain[k].blk, i))
